@@ -3,6 +3,7 @@ CONSTANTS
  FFs <- FFcat
  Dev <- DevFlushLate
  HInputs <- HIn3
+ HLib <- NoLib3
  NInputs <- NIn
  MaxLen = 3
  Fresh <- FreshOf
